@@ -599,8 +599,11 @@ func ruleFootnoteNumbering(w *World, r *Report) {
 		at       ssa.Instruction
 		index    ssa.Value
 		refIndex ssa.Value
+		ctorBlk  *ssa.BasicBlock              // the block of the constructor call (in the transformer or in a helper)
+		subst    func(ssa.Value) ssa.Value // helper parameters -> the transformer's call arguments
 	}
 	var creations []creation
+	singleLoop := false
 	refIndexOf := func(c *ssa.Call) ssa.Value {
 		var out ssa.Value
 		for _, ref := range referrersOf(c) {
@@ -628,7 +631,7 @@ func ruleFootnoteNumbering(w *World, r *Report) {
 			}
 			idx, ri := c.Common().Args[0], refIndexOf(c)
 			if f == tf {
-				creations = append(creations, creation{c, idx, ri})
+				creations = append(creations, creation{c, idx, ri, c.Block(), func(v ssa.Value) ssa.Value { return v }})
 				continue
 			}
 			// helper: substitute its parameters by the transformer's call arguments
@@ -649,7 +652,7 @@ func ruleFootnoteNumbering(w *World, r *Report) {
 						}
 						return v
 					}
-					creations = append(creations, creation{cc, subst(idx), subst(ri)})
+					creations = append(creations, creation{cc, subst(idx), ri, c.Block(), subst})
 				}
 			}
 		}
@@ -672,27 +675,55 @@ func ruleFootnoteNumbering(w *World, r *Report) {
 			okBack, why = false, "a back-link's RefIndex is neither 0 nor the loop counter"
 			continue
 		}
-		// loop counter starting at 1, bounded by i < refCount (a Lookup in the counter map)
+		// loop counter bounded by i < refCount (a Lookup in the counter map, possibly handed to a helper, possibly raised to
+		// at least 1), starting at 1 after an explicit first back-link with RefIndex 0 — or starting at 0 in a single loop
+		var isRefCount func(v ssa.Value, d int) bool
+		isRefCount = func(v ssa.Value, d int) bool {
+			v = stripConv(v)
+			if _, isLk := v.(*ssa.Lookup); isLk {
+				return true
+			}
+			if _, isLk := stripConv(cr.subst(v)).(*ssa.Lookup); isLk {
+				return true
+			}
+			if ph, ok := v.(*ssa.Phi); ok && d < 3 {
+				some := false
+				for _, e := range ph.Edges {
+					if c, isC := constInt(e); isC && c == 1 {
+						continue
+					}
+					if !isRefCount(e, d+1) {
+						return false
+					}
+					some = true
+				}
+				return some
+			}
+			return false
+		}
 		bounded := false
-		for _, cf := range dominatingConds(cr.at.Block()) {
-			if impliesLess(cf.If.Cond, cf.Truth, func(v ssa.Value) bool { return v == ssa.Value(phi) }, func(v ssa.Value) bool {
-				_, isLk := stripConv(v).(*ssa.Lookup)
-				return isLk
-			}) {
+		for _, cf := range dominatingConds(cr.ctorBlk) {
+			if impliesLess(cf.If.Cond, cf.Truth, func(v ssa.Value) bool { return v == ssa.Value(phi) }, func(v ssa.Value) bool { return isRefCount(v, 0) }) {
 				bounded = true
 			}
 		}
-		start1 := false
+		start1, start0 := false, false
 		for _, e := range phi.Edges {
 			if cst, ok := constInt(e); ok && cst == 1 {
 				start1 = true
 			}
+			if cst, ok := constInt(e); ok && cst == 0 {
+				start0 = true
+			}
 		}
-		if !bounded || !start1 {
+		if bounded && start0 {
+			singleLoop = true // numbers 0 … refCount-1 in one loop
+		}
+		if !bounded || !(start1 || start0) {
 			okBack, why = false, "the additional back-links are not numbered 1 … refCount-1"
 		}
 	}
-	if nBack >= 2 && okBack {
+	if (nBack >= 2 || singleLoop) && okBack {
 		r.OK(key+": back-links numbered 0..refCount-1", w.FnPos(tf), fmt.Sprintf("%d construction sites", nBack))
 	} else {
 		r.Bad(key+": back-links numbered 0..refCount-1", w.FnPos(tf), fmt.Sprintf("%d construction sites; %s", nBack, why))
@@ -706,7 +737,18 @@ func ruleFootnoteNumbering(w *World, r *Report) {
 		}
 		nRef++
 		if st.Parent() != tf {
-			continue
+			// the numbering pass extracted into a helper the transformer calls
+			called := false
+			for _, b := range tf.Blocks {
+				for _, ins := range b.Instrs {
+					if c, ok := ins.(*ssa.Call); ok && c.Common().StaticCallee() == st.Parent() {
+						called = true
+					}
+				}
+			}
+			if !called {
+				continue
+			}
 		}
 		if lk, ok := stripConv(st.Val).(*ssa.Lookup); ok {
 			if _, ok := isFieldLoad(lk.Index, linkT, "Index"); ok {
